@@ -377,15 +377,13 @@ fn main() {
         }
         let _ = o.distinct_traces;
         if !o.mismatches.is_empty() || o.panicked.is_some() {
-            // believe a failure only if the same harness fails again (determinism of the harness)
-            let again = run_harness(h, fx.clone(), cap, persist);
-            let reproducible = !again.mismatches.is_empty() && again.mismatches.first() == o.mismatches.first() && again.schedules == o.schedules;
+            // whether the failure is believed is decided by the caller, which replays this part in
+            // two fresh processes and demands identical observations
             violations.push(json!({
                 "fingerprint": format!("C18 interleaving calls={:?} filter={}", h.calls.iter().map(|c| CALL_NAMES[*c]).collect::<Vec<_>>(), FILTERS[h.filter].0),
                 "key": key,
-                "detail": {"mismatch": o.mismatches.first(), "panic": o.panicked, "failing_schedule_number": o.schedules, "reproducible_on_second_exploration": reproducible,
+                "detail": {"mismatch": o.mismatches.first(), "panic": o.panicked, "failing_schedule_number": o.schedules,
                            "schedule_files": "shuttle writes the failing schedule next to the replays (schedule*.txt)"},
-                "reproducible": reproducible,
             }));
         }
         results.push(json!({"harness": key, "schedules": o.schedules}));
